@@ -216,6 +216,48 @@ func runC10(c *runCtx) error {
 // (80 pairs, batch size 32 and 7): state carried from one chunk to the next (cached columns,
 // parsed documents) shows only there.  Direct verdicts: batch drain = row drain, and every
 // returned column = the expression evaluated on that row's pair alone.
+// c10AliasStream: function arguments that reach the row only through a select-field NAME.  The
+// statement with names must return what the statement with the definitions written out returns,
+// in both modes (a dispatcher that decides "this call does not depend on the row" must see
+// through names).
+func c10AliasStream(e *emitter, kvs [][2]string) {
+	pairs := [][2]string{
+		{"select key, value as v, upper(v), split(v, ',')[0], int_list(strlen(v), 1)[0] where key ^= 'm'",
+			"select key, value, upper(value), split(value, ',')[0], int_list(strlen(value), 1)[0] where key ^= 'm'"},
+		{"select key, split(value, ',') as p, len(p), join('-', p[0], p[1]), upper(p[1]) where key ^= 'm' & len(p) = 3",
+			"select key, split(value, ','), len(split(value, ',')), join('-', split(value, ',')[0], split(value, ',')[1]), upper(split(value, ',')[1]) where key ^= 'm' & len(split(value, ',')) = 3"},
+		{"select key, int(split(value, ',')[0]) as n, str(n), float(n) / 2, is_int(str(n)), list(n, n + 1)[1] where key ^= 'm' & n > 3",
+			"select key, int(split(value, ',')[0]), str(int(split(value, ',')[0])), float(int(split(value, ',')[0])) / 2, is_int(str(int(split(value, ',')[0]))), list(int(split(value, ',')[0]), int(split(value, ',')[0]) + 1)[1] where key ^= 'm' & int(split(value, ',')[0]) > 3"},
+		{"select key as k, strlen(k), substr(k, 1, 2), lower(upper(k)), cosine_distance(list(strlen(k), 1), list(1, 1)) where k ^= 'm1'",
+			"select key, strlen(key), substr(key, 1, 2), lower(upper(key)), cosine_distance(list(strlen(key), 1), list(1, 1)) where key ^= 'm1'"},
+	}
+	for pi, pq := range pairs {
+		var ref string
+		for _, md := range []struct {
+			batch bool
+			B     int
+		}{{false, 32}, {true, 32}, {true, 7}, {true, 1}} {
+			for which, query := range pq {
+				res := runQuery(query, newStore(kvs), md.batch, md.B, true)
+				rp := c10Replay{Expr: query, What: fmt.Sprintf("batch=%v B=%d store=160 pairs; statement with names vs definitions written out: %q", md.batch, md.B, pq[1])}
+				idx := e.add(fmt.Sprintf("Case (EBool 0 true) [] (* alias statement %d.%d *)", pi, which), rp, true)
+				e.count("alias_statement")
+				if res.Panic != "" || res.Err != nil {
+					e.fail(idx, "the statement fails: "+res.Panic+fmt.Sprint(res.Err), "C10/alias-stmt-fails", rp)
+					continue
+				}
+				got := fmt.Sprint(canonRows(res.Rows))
+				if ref == "" {
+					ref = got
+				} else if got != ref {
+					rp.Row, rp.Bat = ref[:min(len(ref), 300)], got[:min(len(got), 300)]
+					e.fail(idx, "function results over a named field differ from the results over its definition (or between the modes)", "C10/alias-args", rp)
+				}
+			}
+		}
+	}
+}
+
 func c10StmtStream(e *emitter, c *runCtx) {
 	kvs := [][2]string{}
 	for i := 0; i < 80; i++ {
@@ -241,7 +283,18 @@ func c10StmtStream(e *emitter, c *runCtx) {
 		{"join('-', split(value, ',')[0], split(value, ',')[1], strlen(value))", "key ^= 'm' & is_int(split(value, ',')[0])"},
 		{"list(int(split(value, ',')[0]), 2)[0]", "key ^= 'm' & float_list(split(value, ',')[0], 1)[0] > 10.5"},
 		{"int(str(int(split(value, ',')[0]) * 100000000000))", "key ^= 'm'"},
+		// constant arguments with long fractions / many digits: what the statement returns for a
+		// constant call is what the function returns for those arguments (folding must not round)
+		{"float('0.0078125')", "key ^= 'm0'"},
+		{"float('0.00006103515625') * 16384", "key ^= 'm0'"},
+		{"str(float('0.0078125') * 128)", "key ^= 'm0'"},
+		{"float(0.0000001) * 10000000", "key ^= 'm0'"},
+		{"float('123456789.015625') - 123456789", "key ^= 'm0'"},
+		{"int('9007199254740993') - 9007199254740992", "key ^= 'm0'"},
+		{"str(9007199254740993)", "key ^= 'm0'"},
+		{"float('0.5') + float(value) * 0", "key ^= 'm0' & float('0.0078125') * 128 = 1.0"},
 	}
+	c10AliasStream(e, kvs)
 	for qi, x := range qs {
 		query := fmt.Sprintf("select key, %s where %s", x.field, x.where)
 		fe, perr := parseField(x.field)
